@@ -1024,6 +1024,15 @@ func dxRandom(r *h.Run, rng *h.Rng, mode, fam string, cfg envCfg, delays []strin
 				c.send(nil)
 			}
 			c.ensureReady()
+			if cfg.Max > 0 && !c.bodyFinished && c.recvFailed == "" {
+				// ... while it skips a message that is larger than the read limit: the prefix and a
+				// few bytes have arrived, the rest has not
+				c.body.push(h.FrameLie(0, 1<<20, []byte("sixteen bytes....")))
+				c.desc = append(c.desc, "[the peer announces a 1 MiB message (read limit 1024), sends 17 bytes and stalls]")
+				c.opsCoq = append(c.opsCoq, "AWatch")
+				c.obs = append(c.obs, "CNone")
+				c.fired = append(c.fired, false)
+			}
 			c.recvCancel(k)
 		}
 	}
@@ -1054,7 +1063,11 @@ func dxFamily(r *h.Run, rng *h.Rng, mode, fam string) {
 	protos := []string{"connect", "grpc", "grpcweb"}
 	n := r.N(60, 400)
 	for i := 0; i < n; i++ {
-		dxRandom(r, rng, mode, fam, envCfg{Proto: protos[i%3]}, nil)
+		cfg := envCfg{Proto: protos[i%3]}
+		if mode == "C15" && i%4 == 3 {
+			cfg.Max = 1024 // a read limit on the client
+		}
+		dxRandom(r, rng, mode, fam, cfg, nil)
 	}
 	// a delay at every single synchronisation point; every pair in the thorough tier
 	per := r.N(4, 12)
